@@ -167,6 +167,50 @@ def run_c11(ctx: Ctx, M: AnnotateModel):
     ctx.ob("C11-R4", f"utils.{fn.name}/single-root", okw, "the fragment is parsed inside exactly one enclosing element", node=fn, mod=M.um)
 
 
+def rule_annotations_consumed_once(ctx: Ctx, M: AnnotateModel):
+    """C11-R5: 'wrap' promises every requested annotation in the output.  The annotations parameter is typed Iterable, so it may be a generator:
+    whatever consumes it first is the only consumer that sees anything.  The parameter is read exactly once in the function (by the sorted(..) /
+    loop that emits), or every read is of a name already rebound to a materialised list/sorted(..)."""
+    m, f = M.m, M.f
+    if M.bind_errors:
+        return
+    q = "annotate.annotate_citations"
+    it = M.LOOP.iter
+    src = None
+    if isinstance(it, ast.Name):
+        src = it.id
+    elif isinstance(it, ast.Call) and it.args and isinstance(it.args[0], ast.Name):
+        src = it.args[0].id
+    params = [a.arg for a in f.args.args + f.args.kwonlyargs]
+    # follow `x = sorted(p)` / `x = list(p)` back to the parameter
+    P = src
+    for s_ in stmts_local(f.body):
+        if isinstance(s_, ast.Assign) and len(s_.targets) == 1 and isinstance(s_.targets[0], ast.Name) and s_.targets[0].id == src \
+                and isinstance(s_.value, ast.Call) and isinstance(s_.value.func, ast.Name) and s_.value.func.id in ("sorted", "list", "tuple") \
+                and s_.value.args and isinstance(s_.value.args[0], ast.Name) and s_.value.args[0].id in params:
+            P = s_.value.args[0].id
+            mat = s_
+            break
+    else:
+        mat = None
+    ctx.ob("C11-STRUCT", f"{q}/annotations-parameter", P in params, f"the emitting loop iterates the parameter `{P}` (possibly through sorted/list)", node=M.LOOP, mod=m,
+           nontrivial=False)
+    if P not in params:
+        return
+    loads = [n for n in walk_local(f) if isinstance(n, ast.Name) and n.id == P and isinstance(n.ctx, ast.Load)]
+    if mat is not None and P == src:
+        # `annotations = sorted(annotations)`: loads before the materialisation (other than its own argument) see the raw iterable
+        early = [n for n in loads if (n.lineno, n.col_offset) < (mat.lineno, mat.col_offset) and n is not mat.value.args[0]]
+    elif mat is not None:
+        early = [n for n in loads if n is not mat.value.args[0]]
+    else:
+        early = [n for n in loads if n is not it and not (isinstance(it, ast.Call) and n is it.args[0])]
+    ctx.ob("C11-R5", f"{q}/{P}:consumed-once", not early,
+           f"`{P}` is typed Iterable and may be a one-shot iterator: it is read once, by the materialising sorted()/loop; an earlier pass over it "
+           f"(validation, counting) leaves nothing to annotate ({[norm(n.parent)[:50] if hasattr(n, 'parent') else P for n in early][:3]})",
+           node=early[0] if early else (mat or M.LOOP), mod=m)
+
+
 def run(ctx: Ctx):
     ctx.level = "other"
     ctx.explanation = (
@@ -187,9 +231,12 @@ def run(ctx: Ctx):
     # where an annotation lands in the markup is decided by the offset translation: a table that maps a plain offset into the middle of a tag puts
     # the annotation there.  The two decided facts about the table (C10-R12 monotone, C10-R13 steps account for both texts and '=' only for equal
     # blocks) are necessary for C11 as well
-    from .c10 import rule_diff_steps, rule_monotone_table
-    ctx.guard(rule_monotone_table, ctx, ctx.repo, M.m)
-    ctx.guard(rule_diff_steps, ctx, ctx.repo, M.m)
+    # (run_c10_source runs both, together with the other source-text rules: start/end translated with the right bisect sides, the table built from
+    # a diff of the very strings the offsets index (C10-R9; a casefolded copy shifts every later span into a tag), the updater built in this call
+    # from the two text parameters (C10-R14))
+    from .c10 import run_c10_source
+    ctx.guard(run_c10_source, ctx, M)
+    ctx.guard(rule_annotations_consumed_once, ctx, M)
     ctx.floor("C11-R1", 1)
     ctx.floor("C11-R2", 2)
     ctx.floor("C11-R4", 3)
